@@ -1,13 +1,15 @@
 #!/bin/bash
-# usage: run.sh <Cxx> <quick|thorough>
+# usage: run.sh <Cxx> <quick|thorough>     (JD_REPO=<dir> checks another tree than /repo)
 VERIF_DIR="$(cd "$(dirname "$0")" && pwd)"
 ID="$1"; TIER="${2:-quick}"
-if ! "$VERIF_DIR/build.sh" >"$VERIF_DIR/.work.build.log.$$" 2>&1; then
-  mkdir -p "$VERIF_DIR/.work"
-  cat "$VERIF_DIR/.work.build.log.$$" >&2; rm -f "$VERIF_DIR/.work.build.log.$$"
-  echo "ENGINE-ERROR: build against /repo failed" >&2
+mkdir -p "$VERIF_DIR/.work"
+LOG="$VERIF_DIR/.work/build.log.$$"
+if ! BIN="$("$VERIF_DIR/build.sh" 2>"$LOG")"; then
+  cat "$LOG" >&2; rm -f "$LOG"
+  echo "ENGINE-ERROR: build against ${JD_REPO:-/repo} failed" >&2
   exit 3
 fi
-rm -f "$VERIF_DIR/.work.build.log.$$"
-export VERIF_DIR JDMC_BIN_DIR="$VERIF_DIR/.work/bin" JDMC_TMP_DIR="$VERIF_DIR/.work/tmp"
-exec "$VERIF_DIR/.work/bin/jdmc" check "$ID" -tier "$TIER"
+rm -f "$LOG"
+BIN="$(echo "$BIN" | tail -1)"
+export VERIF_DIR JDMC_BIN_DIR="$BIN" JDMC_TMP_DIR="$VERIF_DIR/.work/tmp"
+exec "$BIN/jdmc" check "$ID" -tier "$TIER"
